@@ -61,7 +61,7 @@ func verifSubject(maxLen int) string {
 
 func VerifC10Substr() {
 	chars := verifIntRange(0, 1) == 1
-	s := verifSubject(verifBound(2, 4))
+	s := verifSubject(verifBound(2, 3))
 	m := verifFloat64()
 	verifAssume(m == m)
 	p := verifBuiltinInterp(chars)
